@@ -243,8 +243,10 @@ def _orientation_branches(e: ast.expr):
     import copy as _copy
 
     sr, sc = _Specialise(True), _Specialise(False)
-    rows_e = sr.visit(_copy.deepcopy(e))
-    cols_e = sc.visit(_copy.deepcopy(e))
+    from ..symex import fold
+
+    rows_e = fold(sr.visit(_copy.deepcopy(e)))
+    cols_e = fold(sc.visit(_copy.deepcopy(e)))
     return [(rows_e, cols_e)] if sr.hits else []
 
 
